@@ -68,7 +68,11 @@ def check_program(job):
                 queries.add(n[i:i + 2])
                 queries.add(n[i:i + 1].upper())
         queries |= {"zzq", "MOD", "Su"}
-        for q in sorted(queries)[:14]:
+        queries = set(sorted(queries)[:12])
+        # "all query strings": characters that mean something to a pattern language must be taken literally
+        first = names[0] if names else "mod1"
+        queries |= {".", first[:1] + "." + first[2:3], "^" + first[:2], first[-1:] + "$", "(", "[a-z]", "*", first[:2] + "|zz", "\\d"}
+        for q in sorted(queries):
             ws = adapter.result_of(adapter.request(s, c, "workspace/symbol", {"query": q}))
             if not isinstance(ws, list):
                 bad.append(({"wsym:noResult"}, {"query": q, "result": ws}))
